@@ -341,6 +341,8 @@ def _c11_jobs(tier):
                         seconds=2 if q else 15, lookers=4))
         out.append(dict(mode=m, shards=1 if q else 4, cases=2 if q else 6, part='subrace', cfgname='subscription-race',
                         lookers=4, specs=120 if q else 300))
+        out.append(dict(mode=m, shards=2 if q else 4, cases=1 if q else 4, part='mutrace', cfgname='mutation-window-race',
+                        lookers=3, mutations=200 if q else 1200))
     # sanitizer legs (c only): the same scripted product without the monitor's retention and with the
     # dict-free-list flood, so that a cache dictionary released during a callback really reaches free()
     vg_shards = 6 if q else 16
@@ -364,7 +366,7 @@ def _c11_jobs(tier):
 PLANS['C11'] = dict(
     engine='reent', level='fault_enumeration', jobs=_c11_jobs,
     minimums=lambda t: {'cells_reached': 3000, 'audited_dicts': 1000, 'warm[hit]': 1000, 'leak_scenarios': 30, 'thread_lookups': 20000,
-                        'thread_mutations': 200, 'subrace_probes': 1000},
+                        'thread_mutations': 200, 'subrace_probes': 1000, 'mutrace_mutations': 600, 'mutrace_lookups': 5000},
     rule='Fault model = callback points (every place where foreign Python code can run while a lookup is on the stack: lazy '
          'required, provided/name/required __hash__/__eq__/__bool__, overridden _uncached_* at entry and exit, spec weakref/'
          'subscribe, __providedBy__/__provides__/__conform__ descriptors, factories, __del__ of a cached value, _generation on '
